@@ -1,6 +1,6 @@
 #!/bin/sh
 # usage: confirm_seed.sh <PROP> <n> [--tests]  : confirm a sub-agent's seeded change in a scratch worktree, then run our check against it.
-prop=$1; n=$2; src=/tmp/agent-$prop-out/$n; wt=/tmp/verif-seed-$prop-$n
+prop=$1; n=$2; pre=${AGENT_PREFIX:-agent}; src=/tmp/$pre-$prop-out/$n; wt=/tmp/verif-seed-$prop-$n
 git -C /repo worktree remove --force $wt >/dev/null 2>&1
 git -C /repo worktree add -q --detach $wt HEAD || exit 2
 echo "== $prop/$n demo on clean tree"; (cd /tmp && PYTHONPATH=$wt timeout 300 /venv/bin/python $src/demo.py >/tmp/seed-$prop-$n-clean.log 2>&1; echo "exit=$?")
